@@ -80,7 +80,7 @@ Section ComposeOps.
     | OExtOp d sig _ => let f := sig_or_empty (extop_sig d sig) in Some (ft_in f, ft_out f, 0)
     | OTag tag s => match nth_error (rows_of s) (N.to_nat tag) with
                     | Some r => Some (r, [s], 0)
-                    | None => None                      (* variant_rows[tag]: IndexError, see [tag_ok] *)
+                    | None => None                      (* the tag names no variant: no signature, see [tag_ok] *)
                     end
     | OModule | OFuncDefn _ _ _ _ | OFuncDecl _ _ | OConst _ | ODataflowBlock _ _ _ _ | OExitBlock _
     | OCase _ _ | OAliasDecl _ _ | OAliasDefn _ _ => None
@@ -119,10 +119,11 @@ Section ComposeOps.
     match d with DIn => snd (snd (fst (reader_ports (c_enc o)))) | DOut => snd (snd (reader_ports (c_enc o))) end.
 
   (* ---- which operations the composed theorems speak about ----
-     C05's OpOK (the encoding returns and the object is one its constructor can have built) as a boolean, and the
-     tag of a Tag operation names one of its variants: ops.Tag(5, Sum([[]])) can be constructed, but its
-     outer_signature() raises IndexError, so `_num_dataflow_ports` does not return on it *)
+     C05's OpOK (the encoding returns and the object is one its constructor can have built), as a boolean.
+     tag_ok: the tag of a Tag operation names one of its variants.  ops.Tag(5, Sum([[]])) can be constructed; it has no
+     signature (outer_signature() raises IndexError) and, since fix f60e9c0, `_num_dataflow_ports` answers None for it
+     as [df_sig] does -- such an operation simply has no order port, the theorems need no premise about it *)
   Definition tag_ok (o : op H) : bool :=
     match o with OTag tag s => N.to_nat tag <? length (rows_of s) | _ => true end.
-  Definition cop_ok_b (o : op H) : bool := op_ok H h_ok o && tag_ok o.
+  Definition cop_ok_b (o : op H) : bool := op_ok H h_ok o.
 End ComposeOps.
